@@ -374,7 +374,8 @@ From Lekkersim Require Import Names.
 Record name_case := {
   nm_pins : list pin; nm_ren : list (pin * pin); nm_queries : list string;
   nm_ok : bool;                               (* construction (+ renaming) accepted *)
-  nm_lookups : list (option pin)              (* Model.pin / Structure.pin lookups by name *)
+  nm_lookups : list (option pin);             (* Model.pin / Structure.pin lookups by name *)
+  nm_objs : list (pin * bool)                 (* Model.put(<Pin object>, target): accepted? *)
 }.
 
 Definition opin_eqb (a b : option pin) : bool :=
@@ -387,7 +388,10 @@ Definition name_verdict (c : name_case) : verdict :=
       match update_pins (rename_pins (nm_ren c) (nm_pins c)) with
       | Err _ => if nm_ok c then Differ else BothReject
       | Ok t => if nm_ok c then
-                  if all2 opin_eqb (map (fun q => lookup q t) (nm_queries c)) (nm_lookups c)
+                  if all2 opin_eqb (map (fun q => lookup q t) (nm_queries c)) (nm_lookups c) &&
+                     (* a Pin OBJECT addresses a pin of the model iff it IS one of its pins (not merely prints like one) *)
+                     forallb (fun pb => Bool.eqb (existsb (pin_eqb (fst pb)) (rename_pins (nm_ren c) (nm_pins c))) (snd pb))
+                             (nm_objs c)
                   then Agree else Differ
                 else ImplError
       end
